@@ -1,4 +1,6 @@
 import GeosModel.Proofs.Simplify.DP
+import GeosModel.Proofs.Simplify.DPIdem
+import GeosModel.Proofs.Simplify.Contracts
 /-!
 # C18 — simplifiers stay within tolerance and preserve the topology they promise
 
@@ -89,6 +91,11 @@ theorem dp_zero_tol_unchanged (o : Ops Pt D) (L : OrdLaws o) (zero : D)
       cases ds with
       | nil => simp [ih]
       | cons d ds => exact absurd (hp d (by simp)) (by simp)
+
+/-- **idempotence** (open lines / closed LineStrings): simplifying the result again with the same tolerance changes
+nothing.  `OrdLaws2` = `OrdLaws` + (`a > b` and `c <= b` imply `a > c`). -/
+theorem dp_idempotent (o : Ops Pt D) (L : OrdLaws2 o) (tol : D) (pts : List Pt) :
+    simplifyLine o tol (simplifyLine o tol pts) = simplifyLine o tol pts := simplifyLine_idem o L tol pts
 
 /-! ### rings (`preserveClosedEndpoint = false`, input is a ring) -/
 
@@ -238,6 +245,19 @@ theorem gridOps_ord : OrdLaws gridOps :=
    by simp only [gridOps, decide_eq_true_eq, decide_eq_false_iff_not]; omega,
    by simp only [gridOps, decide_eq_true_eq]; omega⟩
 
+theorem lineOps_ord2 : OrdLaws2 lineOps :=
+  { lineOps_ord with gt_of_gt_of_le := by simp only [lineOps, decide_eq_true_eq]; omega }
+
+theorem gridOps_ord2 : OrdLaws2 gridOps :=
+  { gridOps_ord with gt_of_gt_of_le := by simp only [gridOps, decide_eq_true_eq]; omega }
+
+/-- the ring variant is **not** idempotent in general: after the post-step moved the ring start, a second run measures
+against other chords and may drop one more vertex (witness on the exact instance `gridOps`) -/
+theorem dp_ring_not_idempotent :
+    ∃ (tol : Int) (ring : List (Int × Int)), isRing gridOps ring = true ∧
+      simplify gridOps tol false (simplify gridOps tol false ring) ≠ simplify gridOps tol false ring :=
+  ⟨4, [(0,0), (4,0), (4,4), (0,4), (2,1), (0,0)], by decide, by decide⟩
+
 -- the recursion splits at the farthest vertex, keeps it, drops what is near
 example : simplifyLine gridOps 12 [(0,0), (1,1), (2,0), (3,5), (4,0), (5,1), (6,0)] = [(0,0), (3,5), (6,0)] := by decide
 example : simplifyLineMask gridOps 12 [(0,0), (1,1), (2,0), (3,5), (4,0), (5,1), (6,0)] = [(0,0), (3,5), (6,0)] := by decide
@@ -256,3 +276,71 @@ example : ringFires lineOps 1 (simplifyLine lineOps 1 [0, 5, 9, 5, -3, 0]) = tru
     isRing lineOps [0, 5, 9, 5, -3, 0] = true ∧ simplify lineOps 1 false [0, 5, 9, 5, -3, 0] = [9, -3, 9] := by decide
 
 end GeosModel.DP
+
+/-!
+## Part 2 — contracts of the simplifiers that are tied by correspondence only (SPEC+C)
+
+The driver runs the executable checkers of `Model/Simplify/Contracts.lean` on (input, GEOS output) pairs, in exact
+integer arithmetic.  The theorems below state what a `true` verdict guarantees.  They are *checker soundness*
+statements (checker ⇒ contract predicate), not statements about the C++ algorithms; the geometric leaves are the
+Kernel predicates `segRel`, `locateInRing`, `locateInPolygon`.
+What is **not** covered by these predicates: the distance/area tolerance of TPS (checked by the driver in `Float` with
+the code's own distance function), of the hull parameters and of the coverage simplifier ("same union up to tolerance").
+-/
+namespace GeosModel.Simplify
+open GeosModel.Kernel
+
+/-- contact-free validity (used for every output): vertices pairwise distinct, segments meet only in the endpoint
+shared by consecutive segments, holes strictly inside their shell and not nested, polygons not nested -/
+theorem strictly_valid_check_sound (lines : List (List Pt)) (polys : List (List Ring))
+    (h : strictlyValid lines polys = true) : StrictlyValid lines polys := strictlyValid_sound lines polys h
+
+/-- **TopologyPreserveSimplify**: same number of lines / polygons / rings, each component a vertex subsequence
+(cyclic for rings) with line endpoints kept, output contact-free valid -/
+theorem tps_check_sound (inLines outLines : List (List Pt)) (inPolys outPolys : List (List Ring))
+    (h : tpsCheck inLines outLines inPolys outPolys = true) : TpsContract inLines outLines inPolys outPolys :=
+  tpsCheck_sound _ _ _ _ h
+
+/-- counts are preserved: consequence of the pointwise relation -/
+theorem tps_counts (inLines outLines : List (List Pt)) (inPolys outPolys : List (List Ring))
+    (h : tpsCheck inLines outLines inPolys outPolys = true) :
+    inLines.length = outLines.length ∧ inPolys.length = outPolys.length ∧
+    All2 (fun i o => i.length = o.length) inPolys outPolys := by
+  have c := tpsCheck_sound _ _ _ _ h
+  exact ⟨c.lines.length_eq, c.rings.length_eq, c.rings.mono (fun _ _ hr => hr.length_eq)⟩
+
+/-- **PolygonHullSimplify**: per polygon the shell hull contains (outer) / lies within (inner) the input shell at the
+vertex level, holes the other way round, hull vertices are input vertices, no hull edge properly crosses an input
+edge, output contact-free valid -/
+theorem hull_check_sound (outer : Bool) (inPolys outPolys : List (List Ring))
+    (h : hullCheck outer inPolys outPolys = true) : HullContract outer inPolys outPolys := hullCheck_sound _ _ _ h
+
+/-- **CoverageSimplify**: same number of polygons and rings, ring vertices are input vertices, every new segment is
+shared by exactly the rings that shared the stretch it replaces (edge-matching preserved), vertices on ≥ 3 rings
+kept, boundary segments kept when requested, no crossing / overlapping / T-touching segments -/
+theorem coverage_check_sound (pb : Bool) (inPolys outPolys : List (List Ring))
+    (h : covCheck pb inPolys outPolys = true) : CovContract pb inPolys outPolys := covCheck_sound _ _ _ h
+
+/-! non-vacuity: the checkers accept a correct simplification and reject a wrong one -/
+
+private def sq : Ring := [⟨0,0⟩, ⟨4,0⟩, ⟨8,0⟩, ⟨8,8⟩, ⟨0,8⟩, ⟨0,0⟩]
+private def sqS : Ring := [⟨0,0⟩, ⟨8,0⟩, ⟨8,8⟩, ⟨0,8⟩, ⟨0,0⟩]
+private def bow : Ring := [⟨0,0⟩, ⟨8,8⟩, ⟨8,0⟩, ⟨0,8⟩, ⟨0,0⟩]
+
+example : tpsCheck [] [] [[sq]] [[sqS]] = true := by decide
+example : tpsCheck [] [] [[sq]] [[bow]] = false := by decide          -- self-crossing output
+example : tpsCheck [[⟨0,0⟩, ⟨1,1⟩, ⟨2,0⟩]] [[⟨0,0⟩, ⟨2,0⟩]] [] [] = true := by decide
+example : tpsCheck [[⟨0,0⟩, ⟨1,1⟩, ⟨2,0⟩]] [[⟨0,0⟩, ⟨1,1⟩]] [] [] = false := by decide   -- endpoint lost
+-- outer hull of a notched square fills the notch; as an *inner* hull the same ring is rejected
+private def notch : Ring := [⟨0,0⟩, ⟨8,0⟩, ⟨8,8⟩, ⟨4,4⟩, ⟨0,8⟩, ⟨0,0⟩]
+example : hullCheck true [[notch]] [[sqS]] = true := by decide
+example : hullCheck false [[notch]] [[sqS]] = false := by decide
+-- two squares sharing the edge x = 4 with a vertex in the middle of it
+private def cl : Ring := [⟨0,0⟩, ⟨4,0⟩, ⟨4,2⟩, ⟨4,4⟩, ⟨0,4⟩, ⟨0,0⟩]
+private def cr : Ring := [⟨4,0⟩, ⟨8,0⟩, ⟨8,4⟩, ⟨4,4⟩, ⟨4,2⟩, ⟨4,0⟩]
+private def clS : Ring := [⟨0,0⟩, ⟨4,0⟩, ⟨4,4⟩, ⟨0,4⟩, ⟨0,0⟩]
+private def crS : Ring := [⟨4,0⟩, ⟨8,0⟩, ⟨8,4⟩, ⟨4,4⟩, ⟨4,0⟩]
+example : covCheck false [[cl], [cr]] [[clS], [crS]] = true := by decide
+example : covCheck false [[cl], [cr]] [[clS], [cr]] = false := by decide     -- shared edge simplified on one side only
+
+end GeosModel.Simplify
